@@ -180,6 +180,49 @@ root packet Big {
 ROOTLESS = "packet A {\n    u8 x,\n}\n\npacket B {\n    A a,\n    string s,\n}\n\npacket C {\n    u16 k,\n    match k as m {\n        1 : A,\n        2 : B,\n    },\n}\n"
 
 
+OTHER_OPTIONS = """options {
+    LittleEndian = true;
+    StringPrefixLenType = u8;
+    ArrayPrefixLenType = u32;
+    FixedStringPadFromLeft = true;
+    FixedStringPadChar = '0';
+    JavaPackage = "org.other.pkg";
+    GoPackage = "other";
+    GoModule = "example.org/other";
+}
+
+MetaData Types {
+    zchar[6] Code `c`,
+    u64 Big `b`,
+}
+
+root packet Legacy {
+    u8 Kind,
+    char[10] Account,
+    Code,
+    repeat Big,
+    string Text,
+    match Kind as Body {
+        1 : Sub,
+    },
+}
+
+packet Sub {
+    @rightPad(' ')
+    char[3] Flag,
+}
+"""
+
+PLAIN_FIXED = """root packet Quote {
+    u16 Kind,
+    char[8] Sender,
+    repeat char[4] Tags,
+    string Note,
+    repeat u32 Levels,
+}
+"""
+
+
 def run_c13(ctx):
     regenerate_facts(ctx)
     check_obligations(ctx, "C13")
@@ -198,6 +241,24 @@ def run_c13(ctx):
                         {"dsl": t, "diff": d, "repetitions": k})
         elif "runs" in r:
             ctx.sample({"dsl": t[:200], "repetitions": k, "verdict": "all outputs byte-identical"}, 2)
+    # history: what was compiled BEFORE in the same process (a build daemon, an editor plug-in, the Go API used twice) must not
+    # matter — one harness process compiles P, then a program that sets every option to a non-default value, then P again
+    seq = []
+    for t in texts[: (8 if ctx.tier == "quick" else 80)] + [PLAIN_FIXED]:
+        seq += [{"op": "gen", "text": t, "order": ALL, "fresh": True}, {"op": "gen", "text": OTHER_OPTIONS, "order": ALL, "fresh": True},
+                {"op": "gen", "text": t, "order": ALL, "fresh": True}]
+    sres = harness.run_ops(seq)
+    for j in range(0, len(seq), 3):
+        a, b = sres[j], sres[j + 2]
+        ctx.count("history_pairs")
+        fa = {(r["lang"], k): v for r in a.get("runs", []) for k, v in (r.get("files") or {}).items()}
+        fb = {(r["lang"], k): v for r in b.get("runs", []) for k, v in (r.get("files") or {}).items()}
+        if "runs" in a and "runs" in b and fa != fb:
+            bad = sorted(k for k in set(fa) | set(fb) if fa.get(k) != fb.get(k))
+            ctx.finding("nondeterministic/history/%s" % bad[0][0], "the same DSL compiles to different bytes after another DSL (with other options) was compiled in the same process",
+                        {"dsl": seq[j]["text"], "compiled_in_between": OTHER_OPTIONS, "files": ["%s/%s" % k for k in bad[:5]],
+                         "first": fa.get(bad[0], "")[:1200], "again": fb.get(bad[0], "")[:1200]})
+            break
     # packet names that differ only in case / underscores: every target derives file and type names from them by case
     # conversion, so two packets can claim one file; which one gets it must not depend on map order (judged per target)
     for lang in ALL:
